@@ -5,8 +5,12 @@ use breakpad_symbols::verif_hooks as bp;
 pub const N: usize = 4;
 
 pub fn sym_str<S: Src>(s: &mut S, buf: &mut [u8; N]) -> usize {
+    sym_str_n::<S, N>(s, buf)
+}
+
+pub fn sym_str_n<S: Src, const K: usize>(s: &mut S, buf: &mut [u8; K]) -> usize {
     let len = s.u8() as usize;
-    let b: [u8; N] = s.bytes::<N>();
+    let b: [u8; K] = s.bytes::<K>();
     *buf = b;
     len
 }
@@ -18,11 +22,20 @@ fn is_sep(b: u8) -> bool {
 /// leafname: the result has no separator, is a suffix of the input, and is preceded by a
 /// separator or is the whole input.
 pub fn h_leafname<S: Src>(s: &mut S) {
-    let mut buf = [0u8; N];
-    let len = sym_str(s, &mut buf);
-    vassume!(len <= N);
+    h_leafname_n::<S, N>(s)
+}
+
+/// thorough tier: the same obligations for paths of at most 7 bytes
+pub fn h_leafname7<S: Src>(s: &mut S) {
+    h_leafname_n::<S, 7>(s)
+}
+
+pub fn h_leafname_n<S: Src, const K: usize>(s: &mut S) {
+    let mut buf = [0u8; K];
+    let len = sym_str_n::<S, K>(s, &mut buf);
+    vassume!(len <= K);
     let mut k = 0;
-    while k < N {
+    while k < K {
         vassume!(buf[k] < 128);
         k += 1;
     }
@@ -144,10 +157,12 @@ pub fn h_sym_lookup<S: Src>(s: &mut S) {
 
 harness!(reg, k_leafname, h_leafname, unwind = 8);
 harness!(reg, k_safe_leafname, h_safe_leafname, unwind = 8);
+harness!(reg, k_leafname7, h_leafname7, unwind = 12);
 // k_sym_lookup is not a Kani harness (String formatting is intractable for CBMC: >8 min, no result); the body is kept for native demonstration via the replay binary
 
 pub fn register(v: &mut Vec<(&'static str, fn(&mut TapeSrc))>) {
     v.push(("k_leafname", h_leafname::<TapeSrc>));
     v.push(("k_safe_leafname", h_safe_leafname::<TapeSrc>));
+    v.push(("k_leafname7", h_leafname7::<TapeSrc>));
     v.push(("k_sym_lookup", h_sym_lookup::<TapeSrc>));
 }
